@@ -58,6 +58,45 @@ macro_rules! dec {
     };
 }
 
+/// scripts in and around the address templates: witness programs of every version opcode (incl.
+/// OP_0 with non-standard lengths, OP_1NEGATE, OP_NOP) and push lengths 0..=42, exact or off by
+/// a byte, p2pkh / p2sh shapes with a wrong byte
+pub fn template_like_script(r: &mut gen::Rg) -> Vec<u8> {
+    match r.gen_range(0..6) {
+        0..=3 => {
+            let ver = *gen::pick(r, &[0x00u8, 0x00, 0x51, 0x52, 0x60, 0x4f, 0x61, 0x50]);
+            let l = r.gen_range(0..=42usize);
+            let mut v = vec![ver, l as u8];
+            let body = match r.gen_range(0..6) {
+                0 => l.saturating_sub(1),
+                1 => l + 1,
+                _ => l,
+            };
+            v.extend(gen::bytes(r, body));
+            v
+        }
+        4 => {
+            let mut v = vec![0x76, 0xa9, 0x14];
+            v.extend(gen::bytes(r, 20));
+            v.extend_from_slice(&[0x88, 0xac]);
+            let i = r.gen_range(0..v.len());
+            if r.gen_range(0..2) == 0 {
+                v[i] ^= 1 << r.gen_range(0..8);
+            }
+            v
+        }
+        _ => {
+            let mut v = vec![0xa9, 0x14];
+            v.extend(gen::bytes(r, 20));
+            v.push(0x87);
+            if r.gen_range(0..2) == 0 {
+                v.truncate(r.gen_range(0..23));
+            }
+            v
+        }
+    }
+}
+
 /// accessors normally applied to a freshly decoded transaction
 fn tx_accessors(ctx: &mut Ctx, t: &Transaction, d: &dyn Fn() -> serde_json::Value) {
     let n = serialize(t).len();
@@ -425,11 +464,12 @@ pub fn run(ctx: &mut Ctx) {
     // ---- scripts and slice parsers
     let n = scale(12_000, 150_000, 60);
     ctx.phase("scripts-and-slices", n, |ctx, k| {
-        let b: Vec<u8> = match k % 4 {
+        let b: Vec<u8> = match k % 5 {
             0 => {
                 let l = ctx.rng.gen_range(0..80);
                 gen::bytes(&mut ctx.rng, l)
             }
+            4 => template_like_script(&mut ctx.rng),
             1 => {
                 // push opcodes with lengths that overrun the script
                 let mut v = vec![*gen::pick(&mut ctx.rng, &[0x01u8, 0x4b, 0x4c, 0x4d, 0x4e, 0x20, 0x4c])];
@@ -460,7 +500,7 @@ pub fn run(ctx: &mut Ctx) {
         let d = || json!({"bytes": hex_short(&b)});
         script_apis(ctx, &b, &d);
         slice_parsers(ctx, &b, &d);
-        ctx.shape(("script", k % 4, b.len().min(100)));
+        ctx.shape(("script", k % 5, b.len().min(100)));
     });
 
     // ---- exhaustive tiny scripts: every script of length <= 2 and every (opcode, 0..3 trailing bytes) truncation
@@ -567,7 +607,7 @@ pub fn run(ctx: &mut Ctx) {
                     1 => {
                         for o in tx.output.iter_mut() {
                             if o.nonce.is_confidential() {
-                                o.script_pubkey = Script::from(gen::bytes(&mut ctx.rng, 7));
+                                o.script_pubkey = if ctx.rng.gen_range(0..3) == 0 { Script::from(gen::bytes(&mut ctx.rng, 7)) } else { Script::from(template_like_script(&mut ctx.rng)) };
                             }
                         }
                         "marked-output-without-address-script"
